@@ -2186,7 +2186,16 @@ impl Kanata {
             && self.vkeys_pending_release.is_empty()
             && !self.layout.b().states.iter().any(|s| {
                 matches!(s, State::SeqCustomPending(_) | State::SeqCustomActive(_))
-                    || (pressed_keys_means_not_idle && matches!(s, State::NormalKey { .. }))
+                    // Only keys that the user holds: a pressed virtual key is an output. It is often
+                    // the very thing that an on-idle action is meant to release.
+                    || (pressed_keys_means_not_idle
+                        && matches!(
+                            s,
+                            State::NormalKey {
+                                coord: (NORMAL_KEY_ROW, _),
+                                ..
+                            }
+                        ))
             })
             && self
                 .layout
